@@ -18,6 +18,7 @@ Decided clauses (see DESIGN.md section 6, C08):
 import ast
 import itertools
 
+from ..core.algebra import Undecided
 from ..core.source import (AnalysisError, is_self_attr, dotted, norm, walk_no_nested, kwarg,
                            const_value)
 from ..core.cfg import cfg_of
@@ -310,7 +311,7 @@ def check(repo, res, tier):
                              "definition state %s is modified but not every path from here to a normal exit trips the "
                              "recompile flags: %s. Every evaluator compiled before this call keeps returning the old model."
                              % (a, why), node=n)
-    res.floor("definition-state write sites", n_sites, 12)
+    res.floor("definition-state write sites", n_sites, 6)
 
     # --------------------------------------------------------------- S3 R-GUARD
     _check_guard(repo, res, cls, compile_fn)
@@ -487,246 +488,23 @@ def _check_canary(repo, res, canary):
 
 
 # ------------------------------------------------------------------- R-GUARD
-def _truth(expr, env):
-    """evaluate a boolean expression over atoms given as {norm(atom): bool}"""
-    if isinstance(expr, ast.BoolOp):
-        vals = [_truth(v, env) for v in expr.values]
-        return all(vals) if isinstance(expr.op, ast.And) else any(vals)
-    if isinstance(expr, ast.UnaryOp) and isinstance(expr.op, ast.Not):
-        return not _truth(expr.operand, env)
-    k = norm(expr)
-    if k in env:
-        return env[k]
-    raise KeyError(k)
-
-
-def _atoms(expr):
-    if isinstance(expr, ast.BoolOp):
-        out = []
-        for v in expr.values:
-            out += _atoms(v)
-        return out
-    if isinstance(expr, ast.UnaryOp) and isinstance(expr.op, ast.Not):
-        return _atoms(expr.operand)
-    return [expr]
-
-
 def _check_guard(repo, res, cls, compile_fn):
+    """the evaluator protocol, decided on every history of at most four steps (rules/evalx.py)"""
+    from ..rules import evalx
     add_func = repo.resolve_method(cls, "add_func")
     if add_func is None:
         raise AnalysisError("add_func vanished")
-    p = add_func.params  # self, method_name, sympy_obj_generator_func, oT, is_master_canary
-    if len(p) < 3:
-        raise AnalysisError("add_func signature changed")
-    name_p, gen_p = p[1], p[2]
-    inner = [n for n in add_func.node.body if isinstance(n, ast.FunctionDef)]
-    if len(inner) != 1:
-        res.undecided("R-GUARD", add_func, "closure", "expected exactly one closure in add_func, found %d" % len(inner))
+    try:
+        bad, n = evalx.run_histories(repo, cls)
+    except Undecided as e:
+        res.undecided("R-GUARD", add_func, "histories", "outside the modelled subset: %s" % e)
         return
-    inner = inner[0]
-    from ..core.source import FuncInfo
-    fi = FuncInfo(add_func.module, add_func.cls, add_func.name + ".<locals>." + inner.name, inner, "function")
-    cfg, df = cfg_of(fi), dataflow_of(fi)
-    outer_df = dataflow_of(add_func)
-    # compiled object name as an expression of the outer scope
-    def outer_expand(e):
-        # names free in the closure are resolved in add_func's scope at its exit
-        return outer_df.expand(e, cfg_of(add_func).exit)
-
-    # (a) the recompile call sits under a guard implied by "flag set" and by "not compiled yet"
-    recompile = [(n, c) for n in cfg.stmt_nodes() for e in df.node_exprs(n) for c in walk_no_nested(e)
-                 if isinstance(c, ast.Call) and is_self_attr(c.func, "add_compiled_sympy_object")]
-    if not recompile:
-        res.violated("R-GUARD", add_func, "recompile-call", "the evaluator closure never calls add_compiled_sympy_object", node=inner)
-        return
-    rn, rc = recompile[0]
-    # arguments forwarded
-    cp = compile_fn.params[1:]
-    fwd = {}
-    for i, a in enumerate(rc.args):
-        if i < len(cp):
-            fwd[cp[i]] = a
-    for k in rc.keywords:
-        fwd[k.arg] = k.value
-    want = {cp[0]: name_p, cp[2]: gen_p} if len(cp) >= 3 else {}
-    for tgt, src in want.items():
-        a = fwd.get(tgt)
-        res.check(isinstance(a, ast.Name) and a.id == src, "R-GUARD", add_func, "forward(%s)" % tgt,
-                  "recompile receives %s" % src,
-                  "add_compiled_sympy_object(%s=...) does not receive add_func's `%s` (got %s)" % (tgt, src, norm(a)), node=rc)
-    comp_name_arg = fwd.get(cp[1]) if len(cp) > 1 else None
-    guards = [(t, o) for t, o in cfg.guards_of(rn) if isinstance(t.ast, ast.If)]
-    flag_atoms, has_atoms = [], []
-    ok_guard = True
-    msg = ""
-    if not guards:
-        ok_guard, msg = True, "recompiles unconditionally on every evaluation"
-    else:
-        for t, outcome in guards:
-            test = t.ast.test
-            atoms = {}
-            for a in _atoms(test):
-                atoms[norm(a)] = a
-            flag = [k for k, a in atoms.items() if isinstance(a, ast.Call) and dotted(a.func) == "getattr"
-                    and len(a.args) >= 2 and is_self_attr(a.args[0], "_hasNewTransition")
-                    and isinstance(a.args[1], ast.Name) and a.args[1].id == name_p]
-            has = [k for k, a in atoms.items() if isinstance(a, ast.Call) and dotted(a.func) == "hasattr"
-                   and len(a.args) == 2 and isinstance(a.args[0], ast.Name) and a.args[0].id == "self"
-                   and comp_name_arg is not None and norm(outer_expand(a.args[1])) == norm(outer_expand(comp_name_arg))]
-            if len(flag) != 1:
-                ok_guard, msg = False, "guard `%s` does not consult getattr(self._hasNewTransition, %s)" % (norm(test), name_p)
-                break
-            keys = list(atoms)
-            for vals in itertools.product([False, True], repeat=len(keys)):
-                env = dict(zip(keys, vals))
-                try:
-                    v = _truth(test, env)
-                except KeyError:
-                    ok_guard, msg = False, "guard not a boolean combination of atoms"
-                    break
-                taken = (v is True) if outcome is True else (v is False)
-                if env[flag[0]] and not taken:
-                    ok_guard, msg = False, "flag set (%s) but recompile branch not taken under %s" % (flag[0], env)
-                    break
-                if has and not env[has[0]] and not taken:
-                    ok_guard, msg = False, "compiled object missing but recompile branch not taken under %s" % env
-                    break
-            if not ok_guard:
-                break
-            if not msg:
-                msg = "guard `%s` is true whenever the flag is set or the compiled object is missing" % norm(test)
-    res.check(ok_guard, "R-GUARD", add_func, "recompile-guard", msg, msg + ": a tripped flag does not lead to recompilation",
-              node=guards[0][0].ast if guards else rc)
-    # (b) the evaluator returns the call of the compiled object, after the guard
-    rets = [n for n in cfg.stmt_nodes() if isinstance(n.ast, ast.Return)]
-    ok_ret = bool(rets)
-    why = "returns getattr(self, compiled name)(time=t, state=state) after the recompile guard"
-    ip = fi.params  # self, state, t
-    for r in rets:
-        v = r.ast.value
-        if not (isinstance(v, ast.Call) and isinstance(v.func, ast.Call) and dotted(v.func.func) == "getattr"
-                and len(v.func.args) == 2 and comp_name_arg is not None
-                and norm(outer_expand(v.func.args[1])) == norm(outer_expand(comp_name_arg))):
-            ok_ret, why = False, "return value `%s` is not a call of the compiled object" % norm(v)
-            break
-        # role agreement of arguments: state -> state, t -> time (compiled wrapper signature checked below)
-        kw = {k.arg: norm(k.value) for k in v.keywords}
-        pos = [norm(a) for a in v.args]
-        comp_obj = [n for n in compile_fn.node.body if isinstance(n, ast.FunctionDef)]
-        if comp_obj:
-            cop = [a.arg for a in comp_obj[0].args.args]
-            bound = dict(zip(cop, pos))
-            bound.update(kw)
-            exp = {}
-            if len(ip) >= 3 and len(cop) >= 2:
-                # closure params: (self, state, t) by position
-                role = {ip[1]: "state", ip[2]: "time"}
-                for pn, an in bound.items():
-                    r_p = "state" if "state" in pn else ("time" if pn in ("time", "t") else pn)
-                    r_a = role.get(an)
-                    if r_a is not None and r_a != r_p:
-                        ok_ret, why = False, "evaluator passes its %s argument as `%s` of the compiled wrapper" % (r_a, pn)
-        if not any(cfg.dominates(g[0], r) for g in guards) and guards:
-            ok_ret, why = False, "return is not preceded by the recompile guard on every path"
-    res.check(ok_ret, "R-GUARD", add_func, "evaluate-after-guard", why, why, node=rets[0].ast if rets else inner)
-    # (c) setattr(self, method_name, closure)
-    sa = [n for n in walk_no_nested(add_func.node) if isinstance(n, ast.Call) and dotted(n.func) == "setattr"]
-    ok_sa = any(len(c.args) == 3 and isinstance(c.args[1], ast.Name) and c.args[1].id == name_p
-                and inner.name in {x.id for x in ast.walk(c.args[2]) if isinstance(x, ast.Name)} for c in sa)
-    res.check(ok_sa, "R-GUARD", add_func, "bind-evaluator", "closure bound under method_name",
-              "add_func does not bind its closure under `%s`" % name_p, node=sa[0] if sa else add_func.node)
-
-    # ---- add_compiled_sympy_object
-    f = compile_fn
-    cfg, df = cfg_of(f), dataflow_of(f)
-    cp = f.params  # self, method_name, compiled_obj_name, gen, oT, is_master
-    if len(cp) < 6:
-        res.undecided("R-GUARD", f, "signature", "unexpected signature %s" % cp)
-        return
-    mname, cname, gen, oT, master = cp[1:6]
-    # generator called unconditionally, result is what gets compiled
-    gen_calls = [(n, c) for n in cfg.stmt_nodes() for e in df.node_exprs(n) for c in walk_no_nested(e)
-                 if isinstance(c, ast.Call) and isinstance(c.func, ast.Name) and c.func.id == gen]
-    ok = bool(gen_calls) and all(cfg.dominates(n, cfg.exit) or cfg.must_pass_after(cfg.entry, [n]) for n, _ in gen_calls[:1])
-    res.check(ok, "R-GUARD", f, "regenerate", "the generator is called on every recompilation",
-              "the symbolic object is not regenerated on every path through the recompile routine (memoised?)",
-              node=gen_calls[0][1] if gen_calls else f.node)
-    compile_calls = []
-    for n in cfg.stmt_nodes():
-        for e in df.node_exprs(n):
-            for c in walk_no_nested(e):
-                if isinstance(c, ast.Call):
-                    fx = df.expand(c.func, n)
-                    if isinstance(fx, ast.Attribute) and fx.attr == "compileExprAndFormat":
-                        compile_calls.append((n, c))
-    res.check(bool(compile_calls), "R-GUARD", f, "compile-call", "compileExprAndFormat is called",
-              "no call of compileExprAndFormat found")
-    for n, c in compile_calls:
-        expr_arg = kwarg(c, "inputExpr", 1)
-        symb_arg = kwarg(c, "inputSymb", 0)
-        ot_arg = kwarg(c, "outType")
-        ex = df.expand(expr_arg, n) if expr_arg is not None else None
-        okc = isinstance(ex, ast.Call) and isinstance(ex.func, ast.Name) and ex.func.id == gen
-        res.check(okc, "R-GUARD", f, "compile-fresh@%d" % (compile_calls.index((n, c))),
-                  "compiles the freshly generated object",
-                  "the expression compiled (%s) is not the result of this activation's generator call" % norm(expr_arg), node=c)
-        res.check(is_self_attr(symb_arg, "_sp"), "R-GUARD", f, "compile-symbols@%d" % (compile_calls.index((n, c))),
-                  "symbols come from self._sp", "symbol list is %s, not self._sp" % norm(symb_arg), node=c)
-        res.check(isinstance(ot_arg, ast.Name) and ot_arg.id == oT, "R-GUARD", f, "compile-outType@%d" % (compile_calls.index((n, c))),
-                  "registered output type forwarded", "outType=%s is not the registered oT" % norm(ot_arg), node=c)
-    # wrapper reads parameters at call time
-    comp_obj = [n for n in f.node.body if isinstance(n, ast.FunctionDef)]
-    okw, whyw = False, "no wrapper closure"
-    if comp_obj:
-        w = comp_obj[0]
-        calls = [c for c in ast.walk(w) if isinstance(c, ast.Call) and is_self_attr(c.func, "_getEvalParam")]
-        okw = bool(calls)
-        whyw = "wrapper evaluates self._getEvalParam(...) on every call" if okw else \
-            "the compiled wrapper does not read the parameter values at call time"
-        if okw:
-            wp = [a.arg for a in w.args.args]
-            c = calls[0]
-            gp = repo.resolve_method(cls, "_getEvalParam")
-            gpp = gp.params[1:] if gp else ["state", "time", "parameters"]
-            bound = dict(zip(gpp, [norm(a) for a in c.args]))
-            bound.update({k.arg: norm(k.value) for k in c.keywords})
-            for pn in ("state", "time"):
-                if pn in gpp and bound.get(pn) != pn and pn in wp:
-                    okw, whyw = False, "_getEvalParam receives %s as its `%s`" % (bound.get(pn), pn)
-    res.check(okw, "R-GUARD", f, "params-at-call-time", whyw, whyw, node=comp_obj[0] if comp_obj else f.node)
-    sa = [(n, c) for n in cfg.stmt_nodes() for e in df.node_exprs(n) for c in walk_no_nested(e)
-          if isinstance(c, ast.Call) and dotted(c.func) == "setattr" and len(c.args) == 3
-          and isinstance(c.args[1], ast.Name) and c.args[1].id == cname]
-    res.check(bool(sa) and comp_obj and isinstance(sa[0][1].args[2], ast.Name) and sa[0][1].args[2].id == comp_obj[0].name
-              and cfg.must_pass_after(cfg.entry, [sa[0][0]]),
-              "R-GUARD", f, "store-compiled", "new wrapper stored under compiled_obj_name on every path",
-              "the freshly compiled wrapper is not stored under `%s` on every path" % cname, node=sa[0][1] if sa else f.node)
-    # trip-if-master precedes reset(method_name); reset on every path
-    resets = [(n, c) for n in cfg.stmt_nodes() for e in df.node_exprs(n) for c in walk_no_nested(e)
-              if isinstance(c, ast.Call) and isinstance(c.func, ast.Attribute) and c.func.attr == "reset"
-              and is_self_attr(c.func.value, "_hasNewTransition")]
-    okr = len(resets) >= 1 and all(len(c.args) == 1 and isinstance(c.args[0], ast.Name) and c.args[0].id == mname for _, c in resets)
-    res.check(okr, "R-GUARD", f, "reset-own-flag", "reset(method_name) resets exactly this evaluator's flag",
-              "reset is called with %s, not with this evaluator's own name: another evaluator's pending recompilation is lost"
-              % [norm(c.args[0]) if c.args else None for _, c in resets], node=resets[0][1] if resets else f.node)
-    if resets:
-        res.check(cfg.must_pass_after(cfg.entry, [n for n, _ in resets]), "R-GUARD", f, "reset-on-all-paths",
-                  "flag reset on every path", "some path through the recompile routine leaves the flag set (recompiles forever) or never resets")
-    trips = [n for n in cfg.stmt_nodes() for e in df.node_exprs(n) for c in walk_no_nested(e) if is_trip_call(c)]
-    okm = False
-    whym = "no trip() for the master evaluator"
-    for tnode in trips:
-        gs = [(t, o) for t, o in cfg.guards_of(tnode) if isinstance(t.ast, ast.If)]
-        cond_ok = (not gs) or all(o is True and isinstance(t.ast.test, ast.Name) and t.ast.test.id == master for t, o in gs)
-        before = all(not cfg.reaches(rn_, tnode) for rn_, _ in resets)
-        if cond_ok and before:
-            okm, whym = True, "master recompilation trips all flags before resetting its own"
-        elif not before:
-            whym = "trip() can run after reset(): the evaluator's own flag stays set"
-        else:
-            whym = "trip() of the master evaluator is guarded by `%s`" % [norm(t.ast.test) for t, _ in gs]
-    res.check(okm, "R-GUARD", f, "master-trips-dependants", whym,
-              whym + ": dependants of the ode are not recompiled when the ode is", node=trips[0].ast if trips else f.node)
+    res.functions.add(compile_fn.construct)
+    res.check(not bad, "R-GUARD", add_func, "histories(%d)" % n,
+              "on every history of <= 4 steps over {evaluate ode, evaluate jacobian, modify the model, change parameter values} each evaluation returns what a "
+              "freshly built model of the current definition returns (current expression, symbols, output type, parameter values read at call time)",
+              "an evaluator is stale or wrong on %d histor%s, e.g. %s" % (len(bad), "y" if len(bad) == 1 else "ies", bad[0] if bad else ""), node=add_func.node)
+    res.floor("evaluator histories played", n, 150)
 
 
 # ------------------------------------------------------------------- R-CACHE
